@@ -26,7 +26,19 @@ type Prop struct {
 // All is the registry, filled by the init functions of the cNN.go files.
 var All = map[string]*Prop{}
 
-func register(p *Prop) { All[p.Spec.ID] = p }
+func register(p *Prop) {
+	run, id := p.Run, p.Spec.ID
+	p.Run = func(c *report.Ctx) {
+		run(c)
+		if rules := round5Rules[id]; len(rules) > 0 {
+			c.Clause("rules added after the fifth blind round")
+			for _, r := range rules {
+				r(c)
+			}
+		}
+	}
+	All[id] = p
+}
 
 var trusted = []string{
 	"go/types type checking and go/ssa construction (golang.org/x/tools v0.29.0) are faithful to the compiler",
